@@ -145,6 +145,7 @@ enum ValueMode {
 pub struct Cfg {
     pub timeout_ns: u128,
     pub read_step_ns: u128,
+    pub ctor_default: bool,
     pub channels: Vec<u8>,
     pub flat: bool,
     pub len: usize,
@@ -178,6 +179,7 @@ impl Cfg {
         J::obj()
             .set("timeout_ns", J::Str(self.timeout_ns.to_string()))
             .set("clock_read_step_ns", J::Str(self.read_step_ns.to_string()))
+            .set("scanners_created_with", J::s(if self.ctor_default { "Default::default()" } else { "new(..)" }))
             .set("channels", J::arr(self.channels.iter().map(|c| J::i(*c))))
             .set("scheduler", J::s(if self.flat { "flat" } else { "rig" }))
             .set("max_events", J::us(self.len))
@@ -353,6 +355,7 @@ pub fn draw_cfg(r: &mut Rng, p: &Preset) -> Cfg {
     Cfg {
         timeout_ns,
         read_step_ns,
+        ctor_default: r.chance(1, 4),
         channels: all,
         flat,
         len,
@@ -488,7 +491,7 @@ impl<'a> Gen<'a> {
         if cfg.read_step_ns > 0 {
             g.stats.faults_fired[F_CLOCK_TICK] += 1;
         }
-        (Trace { timeout_ns: cfg.timeout_ns, read_step_ns: cfg.read_step_ns, events: g.ev }, cfg)
+        (Trace { timeout_ns: cfg.timeout_ns, read_step_ns: cfg.read_step_ns, ctor_default: cfg.ctor_default, events: g.ev }, cfg)
     }
 
     fn fire(&mut self, f: usize, ch: Option<u8>) {
